@@ -339,6 +339,86 @@ def encodeItems (Δ : Defs) : List Val → List Json
   | [] => []
 end
 
+def allDistinct : List String → Bool
+  | [] => true
+  | x :: xs => !xs.contains x && allDistinct xs
+
+/-! ### reading the structure back as a value of a given type -/
+
+def digitsVal (cs : List Char) : Nat := cs.foldl (fun a c => 10 * a + (c.toNat - 48)) 0
+
+def parseInt : List Char → Int
+  | [] => 0
+  | c :: r => if c = '-' then Int.negOfNat (digitsVal r) else Int.ofNat (digitsVal (c :: r))
+
+def variantIdx : List (String × List FTy) → List Char → Option Nat
+  | [], _ => none
+  | (name, _) :: rest, vn =>
+    if name.toList = vn then some 0
+    else match variantIdx rest vn with
+      | some i => some (i + 1)
+      | none => none
+
+mutual
+/-- the value of type `t` that a JSON structure denotes (inverse of `encode`) -/
+def decode (Δ : Defs) : FTy → Json → Option Val
+  | .unit, .null => some .unit
+  | .bool, .bool b => some (.bool b)
+  | .int _ _, .num t => some (.int (parseInt t))
+  | .float _, .num t => some (.float t)
+  | .string, .str s => some (.str s)
+  | .named n, .obj ms =>
+    match Δ.find? (fun d => d.name == n) with
+    | some (.struct _ _ decls) =>
+      match decodeMembers Δ decls ms with
+      | some vs => some (.struct n vs)
+      | none => none
+    | some (.enum _ _ vs) =>
+      match ms with
+      | [.mk _ (.str vn)] =>
+        match variantIdx vs vn with
+        | some idx =>
+          match vs[idx]? with
+          | some (_, []) => some (.enum n idx [])
+          | _ => none
+        | none => none
+      | [.mk _ (.str vn), .mk _ (.arr items)] =>
+        match variantIdx vs vn with
+        | some idx =>
+          match vs[idx]? with
+          | some (_, t :: tys) =>
+            match decodeItems Δ (t :: tys) items with
+            | some args => some (.enum n idx args)
+            | none => none
+          | _ => none
+        | none => none
+      | _ => none
+    | none => none
+  | _, _ => none
+def decodeMembers (Δ : Defs) : List (String × FTy) → List Member → Option (List Val)
+  | [], [] => some []
+  | (f, t) :: decls, .mk k j :: ms =>
+    if k = f.toList then
+      match decode Δ t j, decodeMembers Δ decls ms with
+      | some v, some vs => some (v :: vs)
+      | _, _ => none
+    else none
+  | _, _ => none
+def decodeItems (Δ : Defs) : List FTy → List Json → Option (List Val)
+  | [], [] => some []
+  | t :: tys, j :: js =>
+    match decode Δ t j, decodeItems Δ tys js with
+    | some v, some vs => some (v :: vs)
+    | _, _ => none
+  | _, _ => none
+end
+
+/-- variant names are pairwise distinct within each enum (the typer rejects duplicates) -/
+def variantsDistinct (Δ : Defs) : Bool :=
+  Δ.all fun d => match d with
+    | .enum _ _ vs => allDistinct (vs.map (·.1))
+    | _ => true
+
 def isWs (c : Char) : Bool := c = ' ' || c = '\t' || c = '\n' || c = '\r'
 
 def skipWs : List Char → List Char
@@ -582,6 +662,11 @@ inductive GExpr where
 /-- a generated method: parameter `self`; a struct body destructures `self` binding `binders`, an
     enum body has one arm per variant binding that arm's `binders` -/
 structure GArm where
+  /-- the pattern's path: `[Struct]` (`let Struct { f: b, … } = self`), `[Enum, Variant]` (a match
+      arm), or `[]` when nothing is destructured (a struct without fields) -/
+  patPath : List String := []
+  /-- the struct pattern's field names, in order -/
+  patFields : List String := []
   binders : List String
   body : GExpr
   deriving Repr, Inhabited
@@ -664,15 +749,16 @@ def enumBinders : Nat → List FTy → List String
 /-- `derive_struct_tojson` / `derive_enum_tojson`; `bind idx field` is the local a struct field is
     bound to -/
 def genJson (bind : Nat → String → String) : Def → GMethod
-  | .struct _ _ fs =>
+  | .struct n _ fs =>
     { name := Gen.Derive.toJsonFn, param := Gen.Derive.selfParam,
-      arms := [{ binders := if fs.isEmpty then [] else binders bind 0 fs,
+      arms := [{ patPath := if fs.isEmpty then [] else [n], patFields := fs.map (·.1),
+                 binders := if fs.isEmpty then [] else binders bind 0 fs,
                  body := if fs.isEmpty then .lit "{}"
                          else concatParts ([.lit "{"] ++ jsonStructParts bind 0 fs ++ [.lit "}"]) }] }
-  | .enum _ _ vs =>
+  | .enum n _ vs =>
     { name := Gen.Derive.toJsonFn, param := Gen.Derive.selfParam,
       arms := vs.map fun (vn, tys) =>
-        { binders := enumBinders 0 tys,
+        { patPath := [n, vn], binders := enumBinders 0 tys,
           body := if tys.isEmpty then .lit ("{\"tag\":\"" ++ vn ++ "\"}")
                   else concatParts ([.lit ("{\"tag\":\"" ++ vn ++ "\",\"fields\":[")] ++ jsonEnumParts 0 tys ++ [.lit "]}"]) } }
 
@@ -680,13 +766,14 @@ def genJson (bind : Nat → String → String) : Def → GMethod
 def genString (bind : Nat → String → String) : Def → GMethod
   | .struct n _ fs =>
     { name := Gen.Derive.toStringFn, param := Gen.Derive.selfParam,
-      arms := [{ binders := if fs.isEmpty then [] else binders bind 0 fs,
+      arms := [{ patPath := if fs.isEmpty then [] else [n], patFields := fs.map (·.1),
+                 binders := if fs.isEmpty then [] else binders bind 0 fs,
                  body := if fs.isEmpty then .lit (n ++ " {}")
                          else concatParts ([.lit (n ++ " { ")] ++ stringStructParts bind 0 fs ++ [.lit " }"]) }] }
   | .enum n _ vs =>
     { name := Gen.Derive.toStringFn, param := Gen.Derive.selfParam,
       arms := vs.map fun (vn, tys) =>
-        { binders := enumBinders 0 tys,
+        { patPath := [n, vn], binders := enumBinders 0 tys,
           body := if tys.isEmpty then .lit (n ++ "::" ++ vn)
                   else concatParts ([.lit (n ++ "::" ++ vn ++ "(")] ++ stringEnumParts 0 tys ++ [.lit ")"]) } }
 
@@ -704,10 +791,6 @@ def GExpr.scoped (locals : List String) : GExpr → Bool
   | .callFn f a => !locals.contains f && a.scoped locals
   | .callMethod r _ => r.scoped locals
   | .concat l r => l.scoped locals && r.scoped locals
-
-def allDistinct : List String → Bool
-  | [] => true
-  | x :: xs => !xs.contains x && allDistinct xs
 
 /-- the generated method is well-scoped: in every arm the binders are pairwise distinct (so each
     variable means the field it was generated for) and no helper call is captured -/
